@@ -448,6 +448,16 @@ fn palette_set(thorough: bool) -> Vec<(String, Pal)> {
         ],
     ));
     v.push(("reversed-VGA".into(), reversed(&vga)));
+    // all sixteen entries huddled in one corner of the cube, all distinct (a "paper" / "midnight" theme): for inputs in
+    // the opposite corner every candidate is almost as far away as the metric can measure
+    let mut paper = [(0u8, 0u8, 0u8); 16];
+    let mut midnight = [(0u8, 0u8, 0u8); 16];
+    for i in 0..16u8 {
+        paper[i as usize] = (255 - (i % 4) * 3, 255 - (i / 4) * 4, 250 + (i % 6));
+        midnight[i as usize] = ((i % 4) * 3, (i / 4) * 4, 5 - (i % 6));
+    }
+    v.push(("paper(all entries near white, nearest-to-black last)".into(), reversed(&paper)));
+    v.push(("midnight(all entries near black)".into(), midnight));
     if thorough {
         v.push(("reversed-WIN10".into(), reversed(&win)));
         for i in 0..16 {
